@@ -5,9 +5,9 @@ Requests are still planned, judged by the pure-AST oracle, executed and recorded
 picks uniformly among all editable slots of the tree, which makes statement-level edits (where trivia, pep8space, elif_
 and one-line blocks matter) and edits inside multi-line brackets (where comments sit between elements) rare.  Per step a
 wish is drawn and up to `TRIES` plans are drawn until one fulfils it:
-  0.40  statement-like field (body / orelse / finalbody / handlers / cases / _body)
-  0.20  container that spans several physical lines and is not a statement list
-  0.40  anything
+  0.35  statement-like field (body / orelse / finalbody / handlers / cases / _body)
+  0.30  list-valued field of a container that is not a statement list and whose lines hold a comment
+  0.35  anything
 """
 
 from __future__ import annotations
@@ -22,17 +22,20 @@ from .c04_tokens import STMTISH_FIELDS
 TRIES = 14
 
 
-def _wish_ok(wish, plan, tree):
+def _wish_ok(wish, plan, tree, lines):
     if wish == 'any':
         return True
     stmtish = plan.field in STMTISH_FIELDS and plan.kind not in ('IfExp', 'Lambda')
     if wish == 'stmt':
         return stmtish
+    if stmtish or plan.form == 'opt':
+        return False
     try:
         node = edits.node_at(tree, plan.path)
     except (AttributeError, IndexError):
         return False
-    return not stmtish and getattr(node, 'end_lineno', 0) != getattr(node, 'lineno', 0)
+    a, b = getattr(node, 'lineno', 0), getattr(node, 'end_lineno', 0)
+    return bool(a) and any('#' in ln for ln in lines[a - 1:b])
 
 
 def run_history(rec: edits.Recorder, tid: int, seed: int, src: str, nsteps: int, hooks=None) -> dict:
@@ -42,14 +45,15 @@ def run_history(rec: edits.Recorder, tid: int, seed: int, src: str, nsteps: int,
     script = []
     for _ in range(nsteps):
         r = rng.random()
-        wish = 'stmt' if r < 0.40 else 'multiline' if r < 0.60 else 'any'
+        wish = 'stmt' if r < 0.35 else 'commented' if r < 0.65 else 'any'
+        lines = root.lines
         plan = None
         for _try in range(TRIES):
             p = edits.plan_edit(rng, root.a)
             if p is None:
                 continue
             plan = p
-            if _wish_ok(wish, p, root.a):
+            if _wish_ok(wish, p, root.a, lines):
                 break
         if plan is None:
             break
